@@ -5,6 +5,8 @@ cd "$(dirname "$(readlink -f "$0")")"
 V="$(pwd)"
 export CARGO_NET_OFFLINE=true
 python3 translate/t1_addmod.py /repo/src/lib.rs lean/CircBuf/CircBuf/Generated/AddMod.lean
+# T3 checks that what it emits elaborates, so the modules it targets are built first
+(cd lean/CircBuf && lake build CircBuf.Model CircBuf.GenPrelude)
 python3 translate/t3_core.py /repo/src/lib.rs lean/CircBuf/CircBuf/Generated/Core.lean
 (cd lean/CircBuf && lake build)
 (cd harness && CARGO_TARGET_DIR="$V/.work/target" cargo build --offline --quiet)
